@@ -76,7 +76,14 @@ func Encode(ext string, docs []tv.T) ([]byte, error) {
 			if v == nil {
 				continue
 			}
-			b, err := yaml.Marshal(v)
+			// yaml.v3 writes the string "<<" unquoted (a merge key for every
+			// reader); quote it so that the file means the intended tree
+			n := &yaml.Node{}
+			if err := n.Encode(v); err != nil {
+				return nil, err
+			}
+			QuoteMergeStrings(n)
+			b, err := yaml.Marshal(n)
 			if err != nil {
 				return nil, err
 			}
@@ -102,6 +109,22 @@ func Encode(ext string, docs []tv.T) ([]byte, error) {
 		return nil, fmt.Errorf("unknown extension %q", ext)
 	}
 	return buf.Bytes(), nil
+}
+
+// QuoteMergeStrings double-quotes every string scalar "<<" of a node tree.
+func QuoteMergeStrings(n *yaml.Node) {
+	if n.Kind == yaml.ScalarNode && n.Value == "<<" && n.Tag != "!!merge" {
+		n.Tag = "!!str"
+		n.Style = yaml.DoubleQuotedStyle
+	}
+	if n.Kind == yaml.ScalarNode && n.Value == "<<" && n.Tag == "!!merge" && n.Style == 0 {
+		// Node.Encode tags the plain string "<<" as a merge key as well
+		n.Tag = "!!str"
+		n.Style = yaml.DoubleQuotedStyle
+	}
+	for _, c := range n.Content {
+		QuoteMergeStrings(c)
+	}
 }
 
 func Ext(p string) string { return strings.TrimPrefix(filepath.Ext(p), ".") }
